@@ -10,9 +10,11 @@ use ast_grep_language::SupportLang;
 use serde_json::{json, Map, Value};
 
 const LANGS: &[(&str, &[&str])] = &[
-  ("JavaScript", &["foo(abc, 12);\nlet x = [1, 2, 3];\nfunction f(a) { return a + 1 }\n", "console.log('é🦀')\n", ""]),
-  ("Python", &["def f(a):\n    return foo(a, 12)\n\nprint(f(1))\n", "x = [1, 2]\n", "\n"]),
-  ("Rust", &["fn m() { foo(abc, 12); let v = vec![1, 2]; }\n", "struct A;\n", "fn"]),
+  ("JavaScript", &["foo(abc, 12);\nlet x = [1, 2, 3];\nfunction f(a) { return a + 1 }\n", "console.log('é🦀')\n", "",
+    // hostile texts for accepted rules: mixed-case non-ASCII identifiers, CRLF, tabs, astral characters, deep nesting
+    "foo(cafÉ, aÉÈ_b);\r\nlet ÀÉcole = [naïveCafÉ, 'ÀÉ', `t${x}É`];\r\n\tfoo(ÉÉa, 1)\n", "foo(((((((((((((((1))))))))))))))), '𝒳𝒴', \"\\u{1F980}\");\nfoo(a,\n    b);\n"]),
+  ("Python", &["def f(a):\n    return foo(a, 12)\n\nprint(f(1))\n", "x = [1, 2]\n", "\n", "foo(cafÉ, aÉÈ_b)\r\nÀÉcole = [naïveCafÉ, 'ÀÉ']\n"]),
+  ("Rust", &["fn m() { foo(abc, 12); let v = vec![1, 2]; }\n", "struct A;\n", "fn", "fn m() { foo(cafÉ, aÉÈ_b); let ÀÉcole = \"ÀÉ\"; }\r\n"]),
   ("Go", &["package m\nfunc m() { foo(abc, 12) }\n", "package x\n"]),
   ("Html", &["<div class=\"a\"><p>hi</p><script>foo(1)</script></div>\n", "<a>"]),
   ("Css", &["a { color: red; margin: 1px 2px }\n", ".x{}"]),
